@@ -73,6 +73,17 @@ CHECKS.update({
             "DESIGN.md §3 C11"),
 })
 
+CHECKS.update({
+    "C05": ("exploration",
+            "invariant hook on module._add during passes (no rebinding of a live name) plus reference-model oracle up to a "
+            "tag-based bijection of leaf instances, over adversarially renamed designs",
+            "Every name the elaborator would invent (predicted from the design) is given to a designer signal / instance / bundle / "
+            "named no-connect, declared before or after the colliding construct; M-name asserts at the mechanism that no live "
+            "name is rebound, and the exported circuit must equal the design's meaning regardless of the names chosen.",
+            "only names derivable from today's naming rules (+ trailing underscores) are tried; raising is an accepted resolution",
+            "DESIGN.md §3 C05"),
+})
+
 NOT_APPLICABLE = {}
 
 
